@@ -21,6 +21,8 @@ git stash pop -q
 echo "demo with change: exit $W ; without: exit $WO"
 cd /repo
 git apply $D/patch.diff || { echo "patch does not apply to /repo"; exit 1; }
+# evidence files describe the unchanged tree: keep them out of the seeded runs
+rm -rf /tmp/seed_evidence_backup; cp -r /verif/evidence /tmp/seed_evidence_backup
 RES=""
 for p in $PROPS; do
   OUT=$(cd /verif && ./check $p --tier quick 2>&1 | grep -E "^VIOLATION|^KNOWN" | head -3)
@@ -32,6 +34,8 @@ for p in $PROPS; do
 import json; d=json.load(open('$F')); print('   replay:', d.get('kind','')[:60], '|', str(d.get('request',''))[:260], '|', d.get('cfg'), '| impl', str(d.get('impl'))[:80], '| expected', str(d.get('expected'))[:80])" 2>/dev/null | sed 's/freq=[0-9a-f]*/freq=.../'; fi
 done
 git -C /repo checkout -- .
+rm -rf /verif/evidence; mv /tmp/seed_evidence_backup /verif/evidence
+find /verif/replays -name '*.json' -delete
 python3 - "$ID" "$T" "$W" "$WO" "$RES" <<'PY'
 import json,sys,os
 i,t,w,wo,res=sys.argv[1:6]
